@@ -33,9 +33,6 @@ type vectorOperator struct {
 
 	// series contains the output series of the operator
 	series []labels.Labels
-	// The outputCache is an internal cache used to calculate
-	// the binary operation of the lhs and rhs operator.
-	outputCache []outputSample
 	// table is used to calculate the binary operation of two step vectors between
 	// the lhs and rhs operator.
 	table *table
@@ -129,7 +126,7 @@ func (o *vectorOperator) initOutputs(ctx context.Context) error {
 	keepName := o.opType.IsComparisonOperator() && !o.returnBool
 	highCardHashes, highCardInputMap := o.hashSeries(highCardSide, keepLabels, keepName, buf)
 	lowCardHashes, lowCardInputMap := o.hashSeries(lowCardSide, keepLabels, keepName, buf)
-	output, highCardOutputIndex, lowCardOutputIndex := o.join(highCardHashes, highCardInputMap, lowCardHashes, lowCardInputMap, includeLabels)
+	output, index := o.join(highCardHashes, highCardInputMap, len(highCardSide), lowCardHashes, lowCardInputMap, len(lowCardSide), includeLabels)
 
 	series := make([]labels.Labels, len(output))
 	for _, s := range output {
@@ -137,20 +134,9 @@ func (o *vectorOperator) initOutputs(ctx context.Context) error {
 	}
 	o.series = series
 
-	o.outputCache = make([]outputSample, len(series))
-	for i := range o.outputCache {
-		o.outputCache[i].lhT = -1
-	}
 	o.pool.SetStepSize(len(highCardSide))
 
-	o.table = newTable(
-		o.pool,
-		o.matching.Card,
-		o.operation,
-		o.outputCache,
-		newHighCardIndex(highCardOutputIndex),
-		lowCardinalityIndex(lowCardOutputIndex),
-	)
+	o.table = newTable(o.pool, o.matching.Card, o.operation, index, len(series))
 
 	return nil
 }
@@ -191,6 +177,10 @@ func (o *vectorOperator) Next(ctx context.Context) ([]model.StepVector, error) {
 				batch = append(batch, step)
 				o.rhs.GetPool().PutStepVector(rhs[i])
 				continue
+			}
+
+			if err.multipleMatches != "" {
+				return nil, errors.New(err.multipleMatches)
 			}
 
 			var sampleID, duplicateSampleID labels.Labels
@@ -251,55 +241,61 @@ func (o *vectorOperator) hashSeries(series []labels.Labels, keepLabels, keepName
 // The high cardinality operator can fail to join, which is why its index contains nullable values.
 // The low cardinality operator can join to multiple high cardinality series, which is why its index
 // points to an array of output series.
+// join builds the match groups of series with equal signatures and the output series.
+// Every pair of a high cardinality series and a low cardinality series of the same group
+// has an output series; pairs of a group with equal result labels share one, so that two
+// such pairs present at the same step can be detected as multiple matches.
 func (o *vectorOperator) join(
 	highCardHashes map[uint64][]model.Series,
 	highCardInputIndex map[uint64][]uint64,
+	numHighCard int,
 	lowCardHashes map[uint64][]model.Series,
 	lowCardInputIndex map[uint64][]uint64,
+	numLowCard int,
 	includeLabels []string,
-) ([]model.Series, []*uint64, [][]uint64) {
+) ([]model.Series, *joinIndex) {
+	index := &joinIndex{
+		highGroup: make([]int, numHighCard),
+		lowGroup:  make([]int, numLowCard),
+		lowPos:    make([]int, numLowCard),
+		highOut:   make([][]uint64, numHighCard),
+	}
+	for i := range index.highGroup {
+		index.highGroup[i] = -1
+	}
+
 	// Output index points from output series ID
 	// to the actual series.
 	outputIndex := make([]model.Series, 0)
-
-	// Prune high cardinality series which do not have a
-	// matching low cardinality series.
-	outputSize := 0
-	for hash, series := range highCardHashes {
-		outputSize += len(series)
-		if _, ok := lowCardHashes[hash]; !ok {
-			delete(highCardHashes, hash)
-			continue
-		}
-	}
-	lowCardOutputSize := 0
-	for _, lowCardOutputs := range lowCardInputIndex {
-		lowCardOutputSize += len(lowCardOutputs)
-	}
-
-	highCardOutputIndex := make([]*uint64, outputSize)
-	lowCardOutputIndex := make([][]uint64, lowCardOutputSize)
-	for hash, highCardSeries := range highCardHashes {
-		for _, lowCardSeriesID := range lowCardInputIndex[hash] {
-			// Each low cardinality series can map to multiple output series.
-			lowCardOutputIndex[lowCardSeriesID] = make([]uint64, 0, len(highCardSeries))
+	for hash, lowCardSeries := range lowCardHashes {
+		group := index.numGroups
+		index.numGroups++
+		for pos, lowCardSeriesID := range lowCardInputIndex[hash] {
+			index.lowGroup[lowCardSeriesID] = group
+			index.lowPos[lowCardSeriesID] = pos
 		}
 
-		lowCardSeries := lowCardHashes[hash][0]
-		for i, output := range highCardSeries {
-			outputSeries := buildOutputSeries(uint64(len(outputIndex)), output, lowCardSeries, includeLabels)
-			outputIndex = append(outputIndex, outputSeries)
-
+		groupOutputs := make(map[string]uint64)
+		for i, highCardSeries := range highCardHashes[hash] {
 			highCardSeriesID := highCardInputIndex[hash][i]
-			highCardOutputIndex[highCardSeriesID] = &outputSeries.ID
-
-			for _, lowCardSeriesID := range lowCardInputIndex[hash] {
-				lowCardOutputIndex[lowCardSeriesID] = append(lowCardOutputIndex[lowCardSeriesID], outputSeries.ID)
+			index.highGroup[highCardSeriesID] = group
+			outputs := make([]uint64, len(lowCardSeries))
+			for pos := range lowCardSeries {
+				outputSeries := buildOutputSeries(uint64(len(outputIndex)), highCardSeries, lowCardSeries[pos], includeLabels)
+				key := outputSeries.Metric.String()
+				outputID, ok := groupOutputs[key]
+				if !ok {
+					outputID = outputSeries.ID
+					groupOutputs[key] = outputID
+					outputIndex = append(outputIndex, outputSeries)
+				}
+				outputs[pos] = outputID
 			}
+			index.highOut[highCardSeriesID] = outputs
 		}
 	}
 
-	return outputIndex, highCardOutputIndex, lowCardOutputIndex
+	return outputIndex, index
 }
 
 func signature(metric labels.Labels, without bool, grouping []string, keepOriginalLabels, keepName bool, buf []byte) (uint64, labels.Labels) {
